@@ -36,7 +36,7 @@ N_SEQ_RANDOM = {"quick": 20000, "thorough": 500000}
 N_SCEN = {"quick": 800, "thorough": 12000}
 DFS_LIMIT = {"quick": 1200, "thorough": 30000}
 RANDOM_RUNS = {"quick": 50, "thorough": 300}
-SEQ_OPS = ["await0", "take0", "awaith_new", "awaith_old", "del0", "failnext", "await1"]
+SEQ_OPS = ["await0", "take0", "awaith_new", "awaith_old", "del0", "failnext", "await1", "temp"]
 
 
 def cases(tier, seed, shard, nshards):
@@ -176,6 +176,26 @@ def run_seq(case, stats):
                 break
         elif op == "failnext":
             state["fail"] = True
+        elif op == "temp":
+            # the property of a temporary: the instance is dropped by its user right after the access, only what the
+            # access returned is awaited (``await gather(*(Resource(u).data for u in urls))``)
+            fresh = K(2)
+            obj = fresh.p
+            del fresh
+            runs_before, will_fail = state["runs"], state["fail"]
+            try:
+                res = ("ok", drive(_aw(obj)))
+            except Planned:
+                res = ("failed",)
+            except BaseException as exc:  # noqa: BLE001
+                res = ("raise", type(exc).__name__, str(exc)[:60])
+            want = ("failed",) if will_fail else ("ok", val(2, runs_before + 1))
+            if res != want or state["runs"] != runs_before + 1:
+                viols.append({"key": "cached_property/sequential-temporary-instance",
+                              "msg": f"{head}: op {n}: awaiting the property of a dropped temporary gave {res} with "
+                                     f"{state['runs'] - runs_before} getter runs, expected {want} with 1"})
+                break
+            stats["temporary_instance_awaits"] += 1
     if CTX.foreign:
         viols.append({"key": "cached_property/foreign-suspension", "msg": CTX.foreign[0]})
     stats["sequential_histories"] += 1
